@@ -72,7 +72,7 @@ func init() {
 	runs = append(runs, WorldRun{World: "gov-1k", Quick: b(2, 2, 1), Thorough: b(3, 3, 1), MenuFilter: c20GovFilter(same)})
 	runs = append(runs, WorldRun{World: "gov-1k", Quick: b(2, 2, 2), Thorough: b(3, 3, 2), MenuFilter: c20GovFilter([]string{"halt@2"})})
 
-	regExplore("C20", runs, one(monitors.Governance{}), func(c *Ctx) {
+	regExplore("C20", runs, one(monitors.Committed(monitors.Governance{}, "cvote/", "uvote/", "halt/", "commission/", "version")), func(c *Ctx) {
 		var grid []map[string]interface{}
 		for _, sp := range worlds.C20GovGrid() {
 			var st []string
